@@ -12,64 +12,91 @@
 (* "fixed" is the repaired code: every notification invalidates the touched cache entries,  *)
 (* refreshes the tip whenever it differs and bumps a counter; limited_history repeats a     *)
 (* read during which a notification was issued (the pattern tx_hashes_at_blockheight uses). *)
+(* unc is the has-unconfirmed-inputs flag of the script hash's mempool transactions: it is   *)
+(* part of the status and flips when a block confirms - or a reorganisation un-confirms - a  *)
+(* parent, WITHOUT the script hash being touched; ms is ElectrumX.mempool_statuses (the      *)
+(* script hashes re-checked on every tip change).  Variant "narrowms" keeps a script hash in *)
+(* ms only while the flag is set (must violate Converged).                                   *)
+(* _notify_sessions is two critical sections: it first awaits the header refresh (NotifyBegin *)
+(* to NotifyEnd: reads may be executed and delivered, clients may ask in between), then       *)
+(* bumps the counter, invalidates and fans out in one piece.  Variant "earlyinval"            *)
+(* invalidates before the await instead (must violate FreshAtQuiescence).                     *)
 EXTENDS Integers, Sequences, FiniteSets, TLC, Json
 
 CONSTANTS Sessions, MaxChanges, MaxReads, Variant, Export
 
-VARIABLES height, tip, conf, mem,          \* the index + mempool as they are (what queries read)
+VARIABLES height, tip, conf, mem, unc,     \* the index + mempool as they are (what queries read)
           pendT, pendH,                    \* touched flag / height for the next notification (C20 delivers them)
           nh, hsubTip, cache, gen,         \* SessionManager: notified_height, hsub_results, history cache, invalidation generation
-          sub, held, heldTip, hdrSub,      \* per session
+          sub, held, heldTip, hdrSub, ms,  \* per session
           reads,                           \* in-flight status computations
+          noting,                          \* _notify_sessions is awaiting its header refresh
+          win,                             \* (ghost, export only) something happened inside the last such wait: keeps the
+                                           \* interleavings apart so that each is exported as a behaviour of its own
           nchanges, nreads, evs
-vars == <<height, tip, conf, mem, pendT, pendH, nh, hsubTip, cache, gen, sub, held, heldTip, hdrSub, reads, nchanges, nreads, evs>>
-View == <<height, tip, conf, mem, pendT, pendH, nh, hsubTip, cache, gen, sub, held, heldTip, hdrSub, reads, nchanges, nreads>>
+vars == <<height, tip, conf, mem, unc, pendT, pendH, nh, hsubTip, cache, gen, sub, held, heldTip, hdrSub, ms, reads, noting, win, nchanges, nreads, evs>>
+View == <<height, tip, conf, mem, unc, pendT, pendH, nh, hsubTip, cache, gen, sub, held, heldTip, hdrSub, ms, reads, noting, win, nchanges, nreads>>
 
 None == -1
-Init == /\ height = 0 /\ tip = 0 /\ conf = 0 /\ mem = 0 /\ pendT = FALSE /\ pendH = FALSE
+InMs == IF Variant = "narrowms" THEN mem > 0 /\ unc ELSE mem > 0
+Init == /\ height = 0 /\ tip = 0 /\ conf = 0 /\ mem = 0 /\ unc = FALSE /\ pendT = FALSE /\ pendH = FALSE
+        /\ ms = [s \in Sessions |-> FALSE]
         /\ nh = 0 /\ hsubTip = 0 /\ cache = None /\ gen = 0
-        /\ sub = [s \in Sessions |-> FALSE] /\ held = [s \in Sessions |-> <<None, None>>]
+        /\ sub = [s \in Sessions |-> FALSE] /\ held = [s \in Sessions |-> <<None, None, FALSE>>]
         /\ heldTip = [s \in Sessions |-> 0] /\ hdrSub = [s \in Sessions |-> TRUE]
-        /\ reads = {} /\ nchanges = 0 /\ nreads = 0 /\ evs = <<>>
+        /\ reads = {} /\ noting = FALSE /\ win = FALSE /\ nchanges = 0 /\ nreads = 0 /\ evs = <<>>
 Ev(e) == evs' = IF Export THEN Append(evs, e) ELSE evs
 
 (* ---- the world changes: a block (height up), a reorg ending at the same height, a mempool change ---- *)
-Block(touch) ==
-  /\ nchanges < MaxChanges /\ nchanges' = nchanges + 1
+(* a block may confirm the parent of one of the script hash's mempool transactions (flip: the flag goes down), a
+   reorganisation may un-confirm it (the flag goes up): the script hash itself is not touched by that *)
+Block(touch, flip) ==
+  /\ ~noting /\ nchanges < MaxChanges /\ nchanges' = nchanges + 1
+  /\ flip => (mem > 0 /\ unc)
   /\ height' = height + 1 /\ tip' = tip + 1 /\ conf' = IF touch THEN conf + 1 ELSE conf
+  /\ unc' = IF flip THEN FALSE ELSE unc
   /\ pendT' = (pendT \/ touch) /\ pendH' = TRUE
-  /\ Ev([e |-> "block", touch |-> touch])
-  /\ UNCHANGED <<mem, nh, hsubTip, cache, gen, sub, held, heldTip, hdrSub, reads, nreads>>
-SameHeightReorg(touch) ==
-  /\ nchanges < MaxChanges /\ nchanges' = nchanges + 1 /\ height > 0
+  /\ Ev([e |-> "block", touch |-> touch, flip |-> flip])
+  /\ UNCHANGED <<mem, nh, hsubTip, cache, gen, sub, held, heldTip, hdrSub, ms, reads, noting, win, nreads>>
+SameHeightReorg(touch, flip) ==
+  /\ ~noting /\ nchanges < MaxChanges /\ nchanges' = nchanges + 1 /\ height > 0
+  /\ flip => (mem > 0 /\ ~unc)
   /\ tip' = tip + 1 /\ conf' = IF touch THEN conf + 1 ELSE conf
+  /\ unc' = IF flip THEN TRUE ELSE unc
   /\ pendT' = (pendT \/ touch) /\ pendH' = TRUE
-  /\ Ev([e |-> "reorg", touch |-> touch])
-  /\ UNCHANGED <<height, mem, nh, hsubTip, cache, gen, sub, held, heldTip, hdrSub, reads, nreads>>
+  /\ Ev([e |-> "reorg", touch |-> touch, flip |-> flip])
+  /\ UNCHANGED <<height, mem, nh, hsubTip, cache, gen, sub, held, heldTip, hdrSub, ms, reads, noting, win, nreads>>
 MemChange ==
-  /\ nchanges < MaxChanges /\ nchanges' = nchanges + 1
+  /\ ~noting /\ nchanges < MaxChanges /\ nchanges' = nchanges + 1
   /\ mem' = mem + 1 /\ pendT' = TRUE /\ pendH' = TRUE
-  /\ Ev([e |-> "mempool"])
-  /\ UNCHANGED <<height, tip, conf, nh, hsubTip, cache, gen, sub, held, heldTip, hdrSub, reads, nreads>>
+  /\ unc' \in BOOLEAN
+  /\ Ev([e |-> "mempool", unc |-> unc'])
+  /\ UNCHANGED <<height, tip, conf, nh, hsubTip, cache, gen, sub, held, heldTip, hdrSub, ms, reads, noting, win, nreads>>
 
 (* ---- limited_history: cache hit answers at once, a miss starts a read ---- *)
 StartRead(kind, s) ==
   IF cache # None
   THEN \* served from the cache: the status is computed right away
-       /\ IF kind = "query" THEN UNCHANGED <<sub, held>>
-          ELSE /\ held' = [held EXCEPT ![s] = <<cache, mem>>]
+       /\ IF kind = "query" THEN UNCHANGED <<sub, held, ms>>
+          ELSE /\ held' = [held EXCEPT ![s] = <<cache, mem, unc>>]
+               /\ ms' = [ms EXCEPT ![s] = InMs]
                /\ sub' = IF kind = "sub" THEN [sub EXCEPT ![s] = TRUE] ELSE sub
        /\ UNCHANGED <<reads, nreads>>
   ELSE /\ nreads < MaxReads /\ nreads' = nreads + 1
        /\ reads' = reads \cup {[id |-> nreads + 1, kind |-> kind, s |-> s, val |-> None, g |-> gen]}
-       /\ UNCHANGED <<sub, held>>
+       /\ UNCHANGED <<sub, held, ms>>
 
 (* ---- _notify_sessions ---- *)
+NotifyBegin ==
+  /\ pendH /\ ~noting /\ noting' = TRUE /\ win' = FALSE
+  /\ cache' = IF Variant = "earlyinval" /\ pendT THEN None ELSE cache
+  /\ Ev([e |-> "nbegin"])
+  /\ UNCHANGED <<height, tip, conf, mem, unc, pendT, pendH, nh, hsubTip, gen, sub, held, heldTip, hdrSub, ms, reads, nchanges, nreads>>
 Notify ==
-  /\ pendH /\ pendH' = FALSE /\ pendT' = FALSE
+  /\ pendH /\ noting /\ noting' = FALSE /\ pendH' = FALSE /\ pendT' = FALSE
   /\ LET changed == height # nh
          tipNew == IF Variant = "orig" THEN changed ELSE (changed \/ hsubTip # tip)
-         inval == IF Variant = "orig" THEN (changed /\ pendT) ELSE pendT
+         inval == IF Variant = "orig" THEN (changed /\ pendT) ELSE IF Variant = "earlyinval" THEN FALSE ELSE pendT
          cache1 == IF inval THEN None ELSE cache
      IN /\ nh' = height
         /\ hsubTip' = IF tipNew THEN tip ELSE hsubTip
@@ -77,56 +104,58 @@ Notify ==
         /\ heldTip' = [s \in Sessions |-> IF tipNew /\ hdrSub[s] THEN tip ELSE heldTip[s]]
         \* fan-out: every subscribed session whose script hash was touched (or, on a height change, that has
         \* a mempool status) recomputes its status through limited_history
-        /\ LET need == { s \in Sessions : sub[s] /\ (pendT \/ (tipNew /\ held[s][2] # None /\ mem > 0)) }
+        /\ LET need == { s \in Sessions : sub[s] /\ (pendT \/ (tipNew /\ ms[s])) }
            IN IF cache1 # None
-              THEN /\ held' = [s \in Sessions |-> IF s \in need THEN <<cache1, mem>> ELSE held[s]]
+              THEN /\ held' = [s \in Sessions |-> IF s \in need THEN <<cache1, mem, unc>> ELSE held[s]]
+                   /\ ms' = [s \in Sessions |-> IF s \in need THEN InMs ELSE ms[s]]
                    /\ cache' = cache1 /\ UNCHANGED <<reads, nreads>>
               ELSE /\ cache' = None
                    /\ reads' = reads \cup { [id |-> 100 + nreads, kind |-> "notif", s |-> s, val |-> None, g |-> gen'] : s \in need }
-                   /\ UNCHANGED <<held, nreads>>
+                   /\ UNCHANGED <<held, ms, nreads>>
   /\ Ev([e |-> "notify"])
   /\ ((Export /\ reads' = {} /\ nchanges > 0) => PrintT(<<"SCN", ToJson(Append(evs, [e |-> "notify"]))>>))
-  /\ UNCHANGED <<height, tip, conf, mem, sub, hdrSub, nchanges>>
+  /\ UNCHANGED <<height, tip, conf, mem, unc, sub, hdrSub, win, nchanges>>
 
 (* ---- clients ---- *)
 Subscribe(s) ==
   /\ ~sub[s] /\ ~\E r \in reads : r.s = s /\ r.kind = "sub"
   /\ StartRead("sub", s) /\ Ev([e |-> "subscribe", s |-> s])
-  /\ UNCHANGED <<height, tip, conf, mem, pendT, pendH, nh, hsubTip, cache, gen, heldTip, hdrSub, nchanges>>
+  /\ UNCHANGED <<height, tip, conf, mem, unc, pendT, pendH, nh, hsubTip, cache, gen, heldTip, hdrSub, noting, nchanges>> /\ win' = (Export /\ (win \/ noting))
 Query(s) ==
   /\ StartRead("query", s) /\ Ev([e |-> "query", s |-> s])
-  /\ UNCHANGED <<height, tip, conf, mem, pendT, pendH, nh, hsubTip, cache, gen, heldTip, hdrSub, nchanges>>
+  /\ UNCHANGED <<height, tip, conf, mem, unc, pendT, pendH, nh, hsubTip, cache, gen, heldTip, hdrSub, noting, nchanges>> /\ win' = (Export /\ (win \/ noting))
 
 (* ---- the worker thread reads the DB at one instant ---- *)
 Exec(r) ==
   /\ r \in reads /\ r.val = None
   /\ reads' = (reads \ {r}) \cup {[r EXCEPT !.val = conf]}
   /\ Ev([e |-> "exec", id |-> r.id])
-  /\ UNCHANGED <<height, tip, conf, mem, pendT, pendH, nh, hsubTip, cache, gen, sub, held, heldTip, hdrSub, nchanges, nreads>>
+  /\ UNCHANGED <<height, tip, conf, mem, unc, pendT, pendH, nh, hsubTip, cache, gen, sub, held, heldTip, hdrSub, ms, noting, nchanges, nreads>> /\ win' = (Export /\ (win \/ noting))
 (* ... and the coroutine continues later: cache insert, status, (for subscribe) the subscription *)
 Deliver(r) ==
   /\ r \in reads /\ r.val # None
-  /\ IF Variant = "fixed" /\ r.g # gen
+  /\ IF Variant # "orig" /\ r.g # gen
      THEN \* a notification was issued while the read was under way: read again
           /\ reads' = (reads \ {r}) \cup {[r EXCEPT !.val = None, !.g = gen]}
-          /\ UNCHANGED <<cache, sub, held>>
+          /\ UNCHANGED <<cache, sub, held, ms>>
      ELSE /\ reads' = reads \ {r}
           /\ cache' = r.val
-          /\ IF r.kind = "query" THEN UNCHANGED <<sub, held>>
-             ELSE /\ held' = [held EXCEPT ![r.s] = <<r.val, mem>>]
+          /\ IF r.kind = "query" THEN UNCHANGED <<sub, held, ms>>
+             ELSE /\ held' = [held EXCEPT ![r.s] = <<r.val, mem, unc>>]
+                  /\ ms' = [ms EXCEPT ![r.s] = InMs]
                   /\ sub' = IF r.kind = "sub" THEN [sub EXCEPT ![r.s] = TRUE] ELSE sub
   /\ Ev([e |-> "deliver", id |-> r.id])
   /\ ((Export /\ reads' = {} /\ ~pendH /\ nchanges > 0) => PrintT(<<"SCN", ToJson(Append(evs, [e |-> "deliver", id |-> r.id]))>>))
-  /\ UNCHANGED <<height, tip, conf, mem, pendT, pendH, nh, hsubTip, gen, heldTip, hdrSub, nchanges, nreads>>
+  /\ UNCHANGED <<height, tip, conf, mem, unc, pendT, pendH, nh, hsubTip, gen, heldTip, hdrSub, noting, nchanges, nreads>> /\ win' = (Export /\ (win \/ noting))
 
-Next == (\E t \in BOOLEAN : Block(t) \/ SameHeightReorg(t)) \/ MemChange \/ Notify
+Next == (\E t, f \in BOOLEAN : Block(t, f) \/ SameHeightReorg(t, f)) \/ MemChange \/ NotifyBegin \/ Notify
         \/ (\E s \in Sessions : Subscribe(s) \/ Query(s)) \/ (\E r \in reads : Exec(r) \/ Deliver(r))
 Spec == Init /\ [][Next]_vars
 
 (* ---- properties ---- *)
-Quiescent == ~pendH /\ reads = {}
+Quiescent == ~pendH /\ ~noting /\ reads = {}
 (* C07 *)
-Converged == Quiescent => \A s \in Sessions : /\ (sub[s] => held[s] = <<conf, mem>>)
+Converged == Quiescent => \A s \in Sessions : /\ (sub[s] => held[s] = <<conf, mem, unc>>)
                                              /\ (hdrSub[s] => heldTip[s] = tip)
 (* C10 *)
 FreshAtQuiescence == Quiescent => cache \in {None, conf}
